@@ -87,6 +87,7 @@ def cfg_text(spec: str, entities, keys, vals, max_ops, max_args, op_kinds, devs,
     return t + "CHECK_DEADLOCK FALSE\n"
 
 
+MAX_VIOL = 25   # replay files written per run
 STATE_INVS = ["TypeOK", "CurrentIsModelUnlessDev", "CurrentIsRModel", "ReAddCurrent", "Acyclic",
               "GraphWF", "DevScope"]
 
@@ -305,7 +306,7 @@ def pool_size() -> int:
 
 def replay_all(ctx: Ctx, behs: list, source: str, stats: dict) -> None:
     nproc = pool_size()
-    size = 200
+    size = max(25, -(-len(behs) // (nproc * 2)))
     chunks = [behs[i:i + size] for i in range(0, len(behs), size)]
     if len(chunks) <= 1 or nproc == 1:
         results = [_chunk(c) for c in chunks]
@@ -327,7 +328,7 @@ def replay_all(ctx: Ctx, behs: list, source: str, stats: dict) -> None:
                 stats["asbuilt_drift"] += 1
                 stats.setdefault("drift_example", {"source": source, "what": r["drift"],
                                                    "ops": [fmt_op(s["op"]) for s in b["h"]]})
-            if r["status"] == "viol":
+            if r["status"] == "viol" and len(ctx.violations) < MAX_VIOL:
                 ctx.violation(r["what"], {"source": source, "behaviour": b, "at": r["at"],
                                           "impl": r.get("impl_obs")})
 
@@ -371,7 +372,7 @@ def _gen_chunk(args) -> list:
 
 def gen_traces(ctx: Ctx, n: int, entities, keys, toks, kinds) -> list:
     seeds = [ctx.rng.getrandbits(48) for _ in range(n)]
-    size = 100
+    size = 25
     jobs = [(seeds[i:i + size], entities, keys, toks, kinds) for i in range(0, n, size)]
     nproc = pool_size()
     if len(jobs) <= 1 or nproc == 1:
@@ -614,8 +615,8 @@ def run(ctx: Ctx) -> None:
         traces = gen_traces(ctx, ntr, ents3, keys3, toks, kinds)
         # negative controls: (a) one value of one recorded get_tags observation flipped, (b) an edge
         # closing a cycle added to one recorded graph; TLC must reject exactly these
-        src = next(t for t in traces if any(s["obs"]["cur"]["e1"] for s in t["steps"][2:]))
-        bad = copy.deepcopy(src)
+        i1 = next(i for i, t in enumerate(traces) if any(s["obs"]["cur"]["e1"] for s in t["steps"][2:]))
+        bad = copy.deepcopy(traces[i1])
         k = next(i for i, s in enumerate(bad["steps"]) if i >= 2 and s["obs"]["cur"]["e1"])
         pair = bad["steps"][k]["obs"]["cur"]["e1"][0]
         pair[1] = "i2" if pair[1] != "i2" else "i1"
@@ -631,7 +632,8 @@ def run(ctx: Ctx) -> None:
                           {"out": tres.out[-3000:]})
             continue
         vb, vb2 = verdicts[len(batch) - 1], verdicts[len(batch)]
-        ctx.negative_control(vb[0] == "step" and vb[1] == k + 1,
+        o1 = verdicts[i1 + 1]  # (if the uncorrupted source is itself rejected earlier, so is the control)
+        ctx.negative_control(vb[0] == "step" and (vb[1] == k + 1 if (o1[0] != "step" or o1[1] > k + 1) else vb[1] <= k + 1),
                              f"[{tag}] flipped value in a recorded get_tags observation must be rejected at that call")
         ctx.negative_control(vb2[0] == "cyclic", f"[{tag}] recorded edit graph with a cycle must be rejected")
         for tid in range(1, len(traces) + 1):
@@ -647,7 +649,7 @@ def run(ctx: Ctx) -> None:
                 stats["asbuilt_drift"] += 1
                 stats.setdefault("drift_example", {"source": f"recorded-{tag}",
                                                    "ops": [fmt_op(s["op"]) for s in tr["steps"]]})
-            if verdict == "step":
+            if verdict == "step" and len(ctx.violations) < MAX_VIOL:
                 st = tr["steps"][pos - 1]
                 ctx.violation(f"recorded history rejected by Tags_Trace at call {pos} ({fmt_op(st['op'])}): "
                               f"code cur={sets_of(st['obs']['cur'])} err={st['obs']['err']}",
